@@ -38,13 +38,24 @@ def outStr : Out → String
   | .errFlush => "err flush"
   | .noFlush => "noflush"
 
+/-- the error `Flush` / `FlushWait` returned, with the translation of handleAlreadyExistErr -/
+def errStr (d : D) (o : Out) : String :=
+  match o, d.s.lastErr with
+  | .errFlush, some (.keyExist k v) => s!"err exist {Bytes.toHex k} {optHex v}"
+  | _, _ => outStr o
+
 def parseRes : String → Option FlushRes
   | "ok" => some .ok | "err" => some .err | _ => none
 
+/-- result tokens: `ok`, `err` (plain error), `exist:<hexkey>` (error chain containing ErrKeyExist for that key) -/
 def parseCompletion (r a : String) : Option Completion := do
-  let res ← parseRes r
   let n ← a.toNat?
-  pure { res := res, applied := n }
+  if r.startsWith "exist:" then
+    let k ← parseHex (r.drop 6).toString
+    pure { res := .err, applied := n, kind := .keyExist k }
+  else
+    let res ← parseRes r
+    pure { res := res, applied := n }
 
 def parseKeys (ws : List String) : Option (List Bytes) := ws.mapM parseHex
 
@@ -161,7 +172,12 @@ def step (d : D) (line : String) : D × String :=
   | ["flush", f, mem, r, a] =>
     match mem.toNat?, parseCompletion r a with
     | some mem, some c =>
-      if f == "0" || f == "1" then let (d, o) := apply d (.flush (f == "1") mem c); (d, outStr o) else (d, "bad-op")
+      if f == "0" || f == "1" then
+        let un := d.unreported
+        let (d, o) := apply d (.flush (f == "1") mem c)
+        -- property: a failed flush is reported — Flush never starts the next flush over an unreported failure
+        (d, if un && (match o with | .flushed _ _ _ => true | _ => false) then "FAIL flush-error-swallowed" else errStr d o)
+      else (d, "bad-op")
     | _, _ => (d, "bad-op")
   | ["flushdone", r, a] =>
     match parseCompletion r a with
@@ -169,7 +185,11 @@ def step (d : D) (line : String) : D × String :=
     | _ => (d, "bad-op")
   | ["flushwait", r, a] =>
     match parseCompletion r a with
-    | some c => let (d, o) := apply d (.flushWait c); (d, outStr o)
+    | some c =>
+      let un := d.unreported && d.s.flushing.isSome
+      let (d, o) := apply d (.flushWait c)
+      -- property: a failed flush is reported — FlushWait never returns nil over an unreported failure
+      (d, if un && o == .ok then "FAIL flush-error-swallowed" else errStr d o)
     | _ => (d, "bad-op")
   | ["stage"] => let (d, o) := apply d .stage; (d, outStr o)
   | ["release"] => let (d, o) := apply d .release; (d, outStr o)
